@@ -1,10 +1,17 @@
 """
-E3: Hypothesis stateful machines run outside pytest.
+E3: seeded history machines.
 
-A machine is written as an *interpreter of op lists*: rules only draw an op
-tuple and hand it to ``Model.apply``.  The op list of the failing example that
-Hypothesis replays last (the shrunk one) is the replay file; replaying it needs
-no Hypothesis at all.
+A machine is written as an *interpreter of op lists* (``Model.apply(op)``); the
+op list of a failing example is the replay file and needs no generator at all
+to be replayed.  Two producers of op lists exist:
+
+* ``run_prng_producer`` (default): histories drawn from the harness PRNG --
+  deterministic by construction;
+* ``run_machine``: a Hypothesis ``RuleBasedStateMachine`` run outside pytest
+  (seeded, database off, generate phase only), selectable with
+  ``VERIF_HISTORY_PRODUCER=hypothesis``.  It is not the default because its
+  generated example set differed between two runs with the same seed twice in
+  about a thousand re-runs for a reason I could not find (DESIGN.md section 12).
 """
 
 from __future__ import annotations
@@ -30,16 +37,22 @@ class Recorder:
         self.last_failure: tuple[list, HistoryViolation] | None = None
         self.probes: dict[str, int] = {}
         self.all_ops: list[str] = []
+        self.example_digests: list[str] = []
 
     def probe(self, name: str, inc: int = 1) -> None:
         self.probes[name] = self.probes.get(name, 0) + inc
 
-    def finish_example(self, ops: list) -> None:
+    def finish_example(self, ops: list, outcomes: list | None = None) -> None:
         self.examples += 1
         self.ops_total += len(ops)
-        self.all_ops.append(json.dumps(ops, default=str))
+        text = json.dumps([ops, outcomes or []], default=str)
+        self.all_ops.append(text)
+        self.example_digests.append(hashlib.sha256(text.encode()).hexdigest()[:10])
         if len(ops) >= 2:
-            self.shapes.add(hashlib.sha256(json.dumps(ops, default=str).encode()).hexdigest())
+            self.shapes.add(hashlib.sha256(text.encode()).hexdigest())
+
+    def digest(self) -> str:
+        return hashlib.sha256("|".join(self.example_digests).encode()).hexdigest()
 
 
 def shrink_history(history: list, simplify) -> list:
@@ -53,6 +66,38 @@ def shrink_history(history: list, simplify) -> list:
             if simpler != op:
                 out.append(history[:i] + [simpler] + history[i + 1 :])
     return out
+
+
+def producer() -> str:
+    import os
+
+    return os.environ.get("VERIF_HISTORY_PRODUCER", "prng")
+
+
+def run_prng_producer(make_model, draw_op, seed: int, max_examples: int, step_count: int, rec: Recorder):
+    """Histories from the harness PRNG: each example is a fresh model and
+    1..step_count ops drawn by ``draw_op(prng)``.  Returns None or the
+    HistoryViolation of the first failing example (``rec.last_failure`` holds its
+    op list; shrinking is done by the harness)."""
+    from sim.core import Prng, mix
+
+    prng = Prng(mix("history", seed))
+    for _ in range(max_examples):
+        model = make_model()
+        nsteps = step_count if prng.chance(1, 2) else 1 + prng.below(step_count)
+        failure = None
+        try:
+            for _ in range(nsteps):
+                model.apply(draw_op(prng))
+        except HistoryViolation as err:
+            failure = err
+            rec.last_failure = (list(model.ops), err)
+        finally:
+            model.close()
+            rec.finish_example(model.ops, getattr(model, "outcomes", None))
+        if failure is not None:
+            return failure
+    return None
 
 
 def run_machine(machine_factory, hyp_seed: int, max_examples: int, step_count: int):
